@@ -448,9 +448,13 @@ def run_impl(case, dbfile=None):
         td = tempfile.mkdtemp(prefix="verif-c09-", dir="/var/tmp")
         try:
             path = td + "/scan.sqlite"
+            before = []
             for h in case["db_history"]:
-                run_impl({k: v for k, v in h.items() if k != "db_history"}, dbfile=path)
-            return run_impl(case, dbfile=path)
+                o = run_impl({k: v for k, v in h.items() if k != "db_history"}, dbfile=path)
+                before += [(o.get("run_id"), d, st) for d, st in (o.get("stored") or [])]
+            out = run_impl(case, dbfile=path)
+            out["stored_before"] = before
+            return out
         finally:
             shutil.rmtree(td, ignore_errors=True)
     cfg = m["SessionsScannerConfig"].model_construct(
@@ -495,6 +499,8 @@ def run_impl(case, dbfile=None):
             await db.connect()
             await db.insert_run_meta("verif-c09", _MetaCfg(), datetime.now(UTC).astimezone(), None)
             await db.insert_scan_run(DB_TARGET)
+            nonlocal run_id
+            run_id = db.scan_run
             sc.ecu.db_handler = db
             sc.ecu.implicit_logging = False
         try:
@@ -508,6 +514,7 @@ def run_impl(case, dbfile=None):
                 await db.disconnect()
 
     status = "0"
+    run_id = None
     try:
         status, _ = vrun(runner())
     except Stall as e:
@@ -530,7 +537,27 @@ def run_impl(case, dbfile=None):
         "client_session": int(sc.ecu.state.session),
         "ecu_session": tr.cur,
         "db_lookups": getattr(sc.db_handler, "lookups", 0),
+        **({} if dbfile is None else stored_view(dbfile, run_id)),
     }
+
+
+def stored_view(dbfile, run_id):
+    """what the database file holds once the scan has disconnected: the `session_transition` rows of THIS scan run in the
+    order they were inserted, and the number of rows of the other runs (an earlier run's rows must not change)"""
+    import json
+    import sqlite3
+
+    if run_id is None:
+        return {"stored": None, "stored_others": None}
+    con = sqlite3.connect(dbfile)
+    try:
+        mine = [(int(d), [int(x) for x in json.loads(st)]) for d, st in
+                con.execute("SELECT destination, steps FROM session_transition WHERE run = ? ORDER BY rowid", (run_id,))]
+        others = [(int(r), int(d), [int(x) for x in json.loads(st)]) for r, d, st in
+                  con.execute("SELECT run, destination, steps FROM session_transition WHERE run != ? ORDER BY rowid", (run_id,))]
+    finally:
+        con.close()
+    return {"stored": mine, "stored_others": others, "run_id": int(run_id)}
 
 
 def _reqs_view(log, start):
@@ -628,6 +655,14 @@ def spec_line(case, impl):
     return f"spec d={case['depth']} skip={_csv(case['skip'])} hk={int(case['hooks'])} g={_edges_str(case)}{_hook_fields(case)} rep={rep}"
 
 
+def stored_as_report(impl):
+    first = {}
+    for d, st in impl["stored"]:
+        first.setdefault(d, st)
+    rows = [(s, first[s]) for s in impl["result"] if s in first]
+    return {"rows": rows, "result": [s for s, _ in rows]}
+
+
 def parse_model(line):
     kv = dict(w.split("=", 1) for w in line.split(" ") if "=" in w)
 
@@ -677,11 +712,47 @@ def in_class(case):
     return all(e.get(f"{n}>1") == "p" for n in nodes)
 
 
+def judge_stored(case, impl, spec):
+    """scans with a database: the `session_transition` rows of THIS scan run, read back from the sqlite file after the scan
+    has disconnected, must give for every session the run reported a sequence of session changes that really leads there
+    (the property, observed at the stored rows); they must be the rows the scanner handed to the handler, and the rows
+    of earlier runs must be left alone (the tie: Model/SessionDb.lean `insertTransition` appends)"""
+    out = []
+    if impl.get("stored") is None:
+        if "stored" in impl:
+            out.append(("tie:stored-rows:no-run", "the scan run was not created in the database", False))
+        return out
+    n_hist = len(case.get("db_history") or ())
+    hist = "fresh database" if not n_hist else f"database filled by {n_hist} earlier scan(s) of the same target"
+    if impl["exit"] == "0":
+        missing = [s for s in impl["result"] if not any(d == s for d, _ in impl["stored"])]
+        if missing:
+            out.append(("stored-rows:missing",
+                        f"the scan ({hist}) reported {impl['result']} but the session_transition rows of its run "
+                        f"{impl['stored']} have no sequence for {missing}", True))
+        if spec.get("stored_bad"):
+            out.append(("stored-rows:invalid", f"stored sequences of the run ({hist}) that do not lead to their session: "
+                                               f"{spec['stored_bad']}", True))
+    elif impl["stored"] and impl["exit"] == "1":
+        out.append(("stored-rows:after-exit-1", f"exit 1 but the run stored {impl['stored']}", True))
+    if impl["stored"] != impl["rows"]:
+        out.append(("tie:stored-rows", f"rows of the run in the database {impl['stored']}, rows handed to the handler "
+                                       f"{impl['rows']} ({hist})", False))
+    if "stored_before" in impl and impl["stored_others"] != impl["stored_before"]:
+        out.append(("tie:stored-rows:earlier-runs-changed", f"rows of earlier runs before the scan {impl['stored_before']}, "
+                                                            f"afterwards {impl['stored_others']}", False))
+    if model_rows := spec.get("model_stored"):
+        if model_rows["mine"] != impl["stored"] or model_rows["others"] != len(impl["stored_others"]):
+            out.append(("tie:stored-rows:model", f"database model: rows of the run {model_rows['mine']}, {model_rows['others']} rows "
+                                                 f"of other runs; sqlite file: {impl['stored']}, {len(impl['stored_others'])}", False))
+    return out
+
+
 def judge(case, impl, model, spec):
     """-> list of (cls, what, spec_violated)"""
     if "fam" in case:
         return judge_s(case, impl, model, spec)
-    out = []
+    out = judge_stored(case, impl, spec)
     skip = set(case["skip"])
     if model.get("twin"):
         out.append(("tie:scanS-vs-scan", f"the stateful model over the graph oracle differs from the graph model: {model['twin']}", False))
@@ -780,7 +851,7 @@ def request_bound(case):
 
 def judge_s(case, impl, model, spec):
     """stateful ECU families -> list of (cls, what, spec_violated)"""
-    out = []
+    out = judge_stored(case, impl, spec)
     skip = set(case["skip"])
     fam = case["fam"]
     if impl["exit"] in ("stall", "cap"):
@@ -1198,6 +1269,11 @@ def evaluate(ctx, cases, procs=1):
     impls = run_impl_many(cases, procs)
     models = [parse_model(l) for l in ctx.lean([scans_line(c) if "fam" in c else scan_line(c) for c in cases])]
     specs = [parse_spec(l) for l in ctx.lean([spec_line(eff_case(c), i) for c, i in zip(cases, impls)])]
+    # scans with a database: the specification evaluated on the rows read back from the sqlite file (first row of the run per
+    # reported session)
+    dbk = [k for k, i in enumerate(impls) if i.get("stored") is not None]
+    for k, l in zip(dbk, ctx.lean([spec_line(eff_case(cases[k]), stored_as_report(impls[k])) for k in dbk])):
+        specs[k]["stored_bad"] = parse_spec(l)["bad"]
     # the graph ECU as a stateful oracle: `scanS` over `graphOracle` must be `scan` (scan_simulates_graph), line by line
     twin = [k for k, c in enumerate(cases) if "fam" not in c and not c.get("start")]
     for k, l in zip(twin, ctx.lean([scans_line(cases[k]) for k in twin])):
